@@ -19,5 +19,11 @@ theorem fact_active_RecordDropped : F1.Generated.skel_active_RecordDropped = F1.
 theorem fact_result_SnapshotProgress : F1.Generated.skel_result_SnapshotProgress = F1.Expected.skel_result_SnapshotProgress := by rfl
 theorem fact_result_GetTotals : F1.Generated.skel_result_GetTotals = F1.Expected.skel_result_GetTotals := by rfl
 theorem fact_metrics_RecordIterationResult : F1.Generated.skel_metrics_RecordIterationResult = F1.Expected.skel_metrics_RecordIterationResult := by rfl
+theorem fact_result_Snapshot : F1.Generated.skel_result_Snapshot = F1.Expected.skel_result_Snapshot := by rfl
+theorem fact_result_New : F1.Generated.skel_result_New = F1.Expected.skel_result_New := by rfl
+theorem fact_snapshot_Iterations : F1.Generated.skel_snapshot_Iterations = F1.Expected.skel_snapshot_Iterations := by rfl
+theorem fact_snapshot_IterationsStarted : F1.Generated.skel_snapshot_IterationsStarted = F1.Expected.skel_snapshot_IterationsStarted := by rfl
+theorem fact_average_Reset : F1.Generated.skel_average_Reset = F1.Expected.skel_average_Reset := by rfl
+theorem fact_metrics_Reset : F1.Generated.skel_metrics_Reset = F1.Expected.skel_metrics_Reset := by rfl
 
 end F1.Props.FactsC01
